@@ -7,10 +7,11 @@ CONSTANTS
   MaxAtoms = 2
   GuardSet = {"none", "isnone", "other"}
   Narrow = FALSE
-  Shapes = {"one", "chain", "prim"}
+  Shapes = {"one", "chain", "prim", "dia"}
   ForeignGuardMisread = TRUE
   StrictPositiveMin = TRUE
   RaiseOnConflict = TRUE
+  SnapshotStacking = FALSE
   NegativeMaxIsError = FALSE
 INVARIANT TypeOK
 INVARIANT PinnedExact
